@@ -286,6 +286,101 @@ def top_level_future_cases() -> List[dict]:
     return out
 
 
+# ---- loader histories: the result of a load must not depend on what was loaded before --------------------------------------
+
+@persistence.auto_persist('v')
+class ThingA(persistence.Savable):
+    def __init__(self) -> None:
+        self.v = 'a'
+
+
+@persistence.auto_persist('v')
+class ThingB(persistence.Savable):
+    def __init__(self) -> None:
+        self.v = 'b'
+
+
+class _NamedLoader(loaders.ObjectLoader):
+    """Both loaders call their class 'thing' - the same identifier means different classes under different loaders."""
+
+    TARGET: Any = None
+
+    def load_object(self, identifier: str) -> Any:
+        if identifier == 'thing':
+            return self.TARGET
+        return loaders.DefaultObjectLoader().load_object(identifier)
+
+    def identify_object(self, obj: Any) -> str:
+        if obj in (ThingA, ThingB):
+            return 'thing'
+        return loaders.DefaultObjectLoader().identify_object(obj)
+
+
+class LoaderA(_NamedLoader):
+    TARGET = ThingA
+
+
+class LoaderB(_NamedLoader):
+    TARGET = ThingB
+
+
+HISTORY_OPS = ('ctx-A', 'ctx-B', 'recorded-A', 'recorded-B', 'default', 'global-A', 'global-B', 'global-reset-then-A-state')
+
+
+def history_op(op: str) -> Tuple[str, Any]:
+    """Performs one operation; returns (what was expected, what happened)."""
+    def kind(obj: Any) -> str:
+        return type(obj).__name__
+    if op in ('ctx-A', 'ctx-B', 'recorded-A', 'recorded-B'):
+        loader = LoaderA() if op.endswith('A') else LoaderB()
+        thing = ThingA() if op.endswith('A') else ThingB()
+        saved = thing.save(persistence.LoadSaveContext(loader=loader))
+        ctx = persistence.LoadSaveContext(loader=loader) if op.startswith('ctx') else None
+        return kind(thing), kind(persistence.Savable.load(saved, ctx))
+    if op == 'default':
+        return 'ThingA', kind(persistence.Savable.load(ThingA().save()))
+    previous = loaders.get_object_loader()
+    try:
+        if op in ('global-A', 'global-B'):
+            loaders.set_object_loader(LoaderA() if op.endswith('A') else LoaderB())
+            thing = ThingA() if op.endswith('A') else ThingB()
+            return kind(thing), kind(persistence.Savable.load(thing.save()))
+        # a state written under a global custom loader cannot be resolved once the global loader is the default again
+        loaders.set_object_loader(LoaderA())
+        saved = ThingA().save()
+        loaders.set_object_loader(None)
+        try:
+            return 'ValueError', kind(persistence.Savable.load(saved))
+        except ValueError:
+            return 'ValueError', 'ValueError'
+    finally:
+        loaders.set_object_loader(previous)
+
+
+def check_history(history: Tuple[str, ...]) -> List[dict]:
+    out: List[dict] = []
+    loop = VLoop()
+    loop.install()
+    try:
+        for i, op in enumerate(history):
+            try:
+                want, got = history_op(op)
+            except Exception as exc:  # noqa: BLE001
+                want, got = '?', f'raised {type(exc).__name__}: {exc}'
+            if want != got:
+                out.append({'clause': 'loader-history-dependence', 'features': {'op': op, 'after': list(history[:i])[-1:] or ['-']},
+                            'detail': {'history': list(history[:i + 1]), 'want': want, 'got': got},
+                            'case': {'history': list(history[:i + 1])}})
+                break
+    finally:
+        loop.shutdown()
+    return out
+
+
+def histories(max_len: int) -> List[Tuple[str, ...]]:
+    return [h for n in range(1, max_len + 1) for h in itertools.product(HISTORY_OPS, repeat=n)]
+
+
 def cases(tier: str) -> List[tuple]:
     out = []
     for levels in shapes(tier):
@@ -330,6 +425,12 @@ def run_check(tier: str, seed: int, workers: Any) -> Dict[str, Any]:
     finally:
         loop.shutdown()
     total: Dict[str, Any] = {'n': 6, 'violations': extra, 'nontrivial': 0}
+    hist = histories(2 if tier == 'quick' else 3)
+    # every history in a process of its own: what one history loads must not be visible to the next
+    with mp.get_context('fork').Pool(workers or min(16, os.cpu_count() or 1), maxtasksperchild=1) as pool:
+        for vs in pool.imap_unordered(check_history, hist, chunksize=1):
+            total['n'] += 1
+            total['violations'].extend(vs)
     with mp.get_context('fork').Pool(workers or min(16, os.cpu_count() or 1)) as pool:
         for res in pool.imap_unordered(_work, chunks):
             total['n'] += res['n']
@@ -350,8 +451,9 @@ def run_check(tier: str, seed: int, workers: Any) -> Dict[str, Any]:
                 'method, s nested Savable (depth 2), f SavableFuture} with @auto_persist (quick: all single levels, '
                 'two-level chains with <=3 declarations or a disjoint split of all 5, three-level chains with <=1 per '
                 'level) x future state {pending, result, exception, cancelled} x loader {default, global custom, custom in '
-                'the save context with and without a load context}; plus unknown class / loader identifiers and futures '
-                'saved on their own; non-trivial = at least two declared members',
+                'the save context with and without a load context}; plus unknown class / loader identifiers, futures '
+                'saved on their own, and every history of <=2 (thorough 3) loads through loaders that give the same '
+                'identifier to different classes (context / recorded / global / default / reset); non-trivial = at least two declared members',
         'samples': [{'levels': repr(sample[0]), 'future': sample[1], 'loader': sample[2]}],
         'exhaustive': True,
     }
@@ -372,6 +474,8 @@ def replay(doc: Dict[str, Any]) -> List[dict]:
             return check_unknown()
         if 'top_future' in case:
             return top_level_future_cases()
+        if 'history' in case:
+            return check_history(tuple(case['history']))
         return check_case(to_tuple(case['levels']), case['future'], case['mode'])
     finally:
         loop.shutdown()
